@@ -308,3 +308,18 @@ pub fn suite_for_run(run: u64, ed448_every: u64) -> &'static str {
     let r = run % cycle;
     if r == cycle - 1 { "ed448" } else { fast[(r % 5) as usize] }
 }
+
+/// Now and then a wider world (9..=20 participants) for dealer-keyed scenarios: batching / chunking corners only show
+/// beyond 8 participants or signers. Returns None most of the time and always for the slow suites.
+pub fn maybe_wide<C: Suite>(p: &mut Prng, one_in: u64) -> Option<(u16, u16)> {
+    if C::COST >= 9 || !p.chance(1, one_in) {
+        return None;
+    }
+    let n = p.range(9, if C::COST >= 3 { 13 } else { 20 }) as u16;
+    let t = match p.below(3) {
+        0 => n,
+        1 => p.range(9, n as u64) as u16,
+        _ => p.range(2, n as u64) as u16,
+    };
+    Some((n, t))
+}
